@@ -96,7 +96,7 @@ class C20(Prop):
             # the rewritten file is padded so that the digits of its rank straddle a 2^20-character boundary (and with it every smaller
             # power-of-two boundary): whoever reads the file in blocks must not cut the number
             case["align"] = True
-            case["newranks"][0] = rng.randrange(10, 1001)
+            case["newranks"][0] = rng.choice([x for x in range(10, 1001) if x not in case["newranks"][1:]])     # >= 2 digits, still distinct
         return case
 
     def observe(self, case):
